@@ -84,6 +84,19 @@ def generate_embeddings(items):
 # VUE-BASED HTML REPORT (Modern)
 # ============================================================================
 
+def _json_default(value):
+    """JSON form of values a `field:` directive can produce that JSON has no type for.
+
+    A field can evaluate to a date (`field: posted = date`) or to a row of a supplemental
+    source, which holds one; without this the report could not be written at all.
+    """
+    if hasattr(value, 'isoformat'):
+        return value.isoformat()
+    if isinstance(value, (set, frozenset)):
+        return sorted(value, key=str)
+    return str(value)
+
+
 def write_summary_file_vue(stats, filepath, year=2025, currency_format="${amount}", sources=None, embedded_html=True):
     """Write summary to HTML file using Vue 3 for client-side rendering.
 
@@ -468,7 +481,7 @@ def write_summary_file_vue(stats, filepath, year=2025, currency_format="${amount
     # The data lands inside a <script> element: "</script" (in any letter case) or "<!--" in a
     # description, merchant name or tag would end or derail that element for the HTML parser.
     # The escaped forms are the same characters for a JavaScript or JSON parser.
-    data_json = json.dumps(spending_data).replace('</', '<\\/').replace('<!--', '\\u003c!--')
+    data_json = json.dumps(spending_data, default=_json_default).replace('</', '<\\/').replace('<!--', '\\u003c!--')
     data_script = f'window.spendingData = {data_json};'
 
     if not embedded_html:
